@@ -232,7 +232,10 @@ def build(spec, p, symbolic, hprio=None):
         for ii in ps.get("inputs", []):
             M.wps[pi].append_input_workplace(M.wps[ii])
 
-    M.workflow = BaseWorkflow(M.tasks)
+    # "tl_order": order in which the tasks are listed in the workflow (default: index order).  pDESy visits tasks in
+    # task_list order in several places, so the listing order is part of the model.
+    order = spec.get("tl_order") or list(range(len(M.tasks)))
+    M.workflow = BaseWorkflow([M.tasks[k] for k in order])
     M.product = BaseProduct(M.comps)
     M.org = BaseOrganization(team_list=M.teams, workplace_list=M.wps)
     M.project = BaseProject(
